@@ -119,6 +119,7 @@ type Tape struct {
 
 func NewTape(p *Plan) *Tape { return &Tape{v: p.Tape, x: p.TapeSeed} }
 
+//go:norace
 func (t *Tape) raw() uint32 {
 	t.Used++
 	if t.pos < len(t.v) {
@@ -136,6 +137,8 @@ func (t *Tape) raw() uint32 {
 }
 
 // Next picks one of n alternatives (n >= 1).
+//
+//go:norace
 func (t *Tape) Next(n int) int {
 	if n <= 1 {
 		return 0
